@@ -15,7 +15,6 @@
    cycle of MagicMemoryCL is one particular action list (`cycle_actions`).  Theorems quantified over all
    action lists cover all port counts, latencies, stall probabilities, seeds and arbitration orders. *)
 From PV Require Import Base.Prelude Lib.Mem.
-(* -- *)
 Open Scope Z_scope.
 
 (* ------------------------------------------------------------------ delay pipe (deque model) *)
